@@ -197,6 +197,16 @@ def main():
             calls = [["PrepareAll", extra]] + body + tail + [["ComputeAll", True], ["Eval", extra[0]], ["Eval", extra[1]], ["ComputeAll", False], ["Eval", extra[2]]]
             m.update({"kind": "container4", "id": "np%d:h%d:%s" % (nranks, h, m["id"]), "beta": "2.0", "triples": TRIPLES, "calls": calls})
             rh.append(m)
+        # more ranks than stored components (and a rank count the component count does not divide): several ranks share one component,
+        # the split computation broadcasts each component from the first rank of its colour
+        for few in sorted({1, 2, nranks - 1} - {0}):
+            if few >= nranks:
+                continue
+            comps = [[0, 1, 0, 1], [1, 1, 1, 1], [0, 0, 0, 0], [0, 0, 1, 1]][:few]
+            m = dict(bigs[few % len(bigs)])
+            calls = [["PrepareAll", comps], ["ComputeAll", True]] + [["Eval", q] for q in comps] + [["Eval", [1, 0, 1, 0]], ["ComputeAll", False], ["Eval", comps[0]]]
+            m.update({"kind": "container4", "id": "np%d:few%d:%s" % (nranks, few, m["id"]), "beta": "2.0", "triples": TRIPLES, "calls": calls})
+            rh.append(m)
         per, done, rc, err = pv.run_driver_ranks(exe, rh, nranks, timeout=900)
         if min(done) < len(rh):
             k = min(done)
